@@ -86,6 +86,50 @@ fn main() {
         *ng += 1;
     };
 
+    // `golden_gen <out> <seed> <scale> limits`: only the deterministic corpus of inputs at the limits of the valid domain (exact
+    // poles, the antimeridian written both ways, longitudes whole turns away, signed zeros, the smallest magnitudes a double can
+    // hold) - recorded separately into golden/limits
+    if args.get(4).map(|s| s == "limits").unwrap_or(false) {
+        let tiny = [0.0, -0.0, 5e-324, -5e-324, 1e-310, 1e-300, -1e-300, 2.2250738585072014e-308, 1e-200, 1e-100, 1e-30, 1e-15];
+        let mut pts: Vec<(f64, f64, &str)> = Vec::new();
+        for k in 0..72 {
+            let lon = -180.0 + 5.0 * k as f64;
+            pts.push((lon, 90.0, "pole_exact"));
+            pts.push((lon, -90.0, "pole_exact"));
+            pts.push((lon, 89.999_999_999_999_99, "pole_minus_ulp"));
+            pts.push((lon, -89.999_999_999_999_99, "pole_minus_ulp"));
+        }
+        for j in -35..=35 {
+            let lat = 2.5 * j as f64;
+            for lon in [180.0, -180.0, 179.999_999_999_999_97, -179.999_999_999_999_97, 540.0, -540.0, 360.0, -360.0, 0.0, -0.0, 720.0 + 12.0, -1080.0 + 12.0, 360_000.0 + 12.0] {
+                pts.push((lon, lat, "special_longitude"));
+            }
+        }
+        for a in tiny {
+            for b in tiny {
+                pts.push((a, b, "tiny"));
+            }
+            for lon in [-93.0, 87.0, 15.0, -135.5] {
+                pts.push((lon, a, "tiny_latitude"));
+                pts.push((a, lon.clamp(-89.0, 89.0), "tiny_longitude"));
+            }
+        }
+        for res in 0..=29 {
+            for (lon, lat, class) in &pts {
+                add_lookup(&mut lookups, *lon, *lat, res, class, &mut nl, &mut rej_l);
+                if res % 3 == 0 {
+                    if let Some(c) = lookup(*lon, *lat, res).ok().and_then(decode) {
+                        add_geometry(&mut geometry, c, &mut ng, &mut rej_g);
+                    }
+                }
+            }
+        }
+        std::fs::write(format!("{out}/lookups.tsv"), lookups).expect("write lookups");
+        std::fs::write(format!("{out}/geometry.tsv"), geometry).expect("write geometry");
+        println!("golden limits: {nl} lookup records ({rej_l} not admitted), {ng} geometry records ({rej_g} not admitted)");
+        return;
+    }
+
     for res in 0..=29 {
         // every face x quintant, curve positions: first, last, quarters, digit patterns, random
         for f in 0..12u8 {
